@@ -119,6 +119,7 @@ def cases():
         cs.append(Case("feature/%s/localvol" % f, feature_case(f, 2, 3, "localvol"), encodes=enc, bounds="N=2 T=3"))
     for f in feats:
         cs.append(Case("feature/%s/T6" % f, feature_case(f, 3, 6, "heston"), tier="thorough", encodes=enc, bounds="N=3 T=6", timeout=120))
+    cs.append(Case("modes/es/underlier/T2", modes_case(2, 2, 1, "es", "underlier"), encodes=enc, bounds="N=2 T=2 H=1 (maturity == dt: one hedging step)", timeout=60))
     cs.append(Case("modes/es/underlier", modes_case(2, 3, 1, "es", "underlier", controls=True), encodes=enc, bounds="N=2 T=3 H=1", timeout=60))
     cs.append(Case("modes/entropic/two_primaries", modes_case(2, 3, 2, "entropic", "two_primaries"), encodes=enc, bounds="N=2 T=3 H=2", timeout=60))
     cs.append(Case("modes/es/listed/T4", modes_case(2, 4, 2, "es", "primary_plus_listed"), encodes=enc, bounds="N=2 T=4 H=2", timeout=60))
